@@ -195,3 +195,54 @@ void drv_gen_begin(generator_iterator<generator<int> > *out, generator<int> *g) 
 void drv_gen_end(generator_iterator<generator<int> > *out, generator<int> *g) { new(out) generator_iterator<generator<int> >(g->end()); }
 void drv_arg_call_lvalue(future<int> *out, generator<int, int> *g, int *x) { new(out) future<int>((*g)(*x)); }
 }
+
+// =====================================================================================================================================
+// appended after the audit of group E (items W1, W2).
+//  W1: after the body's exception the consumer GOES ON asking.  From the property: the observed sequence is the yielded values, the
+//      exception at its position, and then the sequence is over - the generator must say so (done() / operator bool) and asking again
+//      must give the end-of-sequence indication of the style used, as after a regular end.
+//  W2: the co_await styles (3: co_await next(), 4: co_await of the future returned by the call) as single steps, so that they can be
+//      mixed with the synchronous styles and meet a throwing body.
+extern "C" {
+int g_fin_done, g_fin_bool;        // generator::done() / operator bool sampled right after the body's exception surfaced (-1: never sampled)
+int g_after_end, g_after_val;      // what asking again after the exception gave: end indications / values
+int g_co_frames;                   // consumer coroutine frames created by co_await steps
+}
+enum { FK_COSTEP = 6 };
+// one co_await step in a small coroutine of its own; a synchronous body lets it run to completion inline.
+// *out: 1 = a value was observed, 0 = end of sequence; an exception goes to task::promise_type::unhandled_exception (recorded), *out untouched
+extern "C" task co_step(generator<int> *g, int style, int *out) {
+    if (style == 3) { if (co_await g->next()) { obs(g->value()); *out = 1; } else *out = 0; }
+    else { future<int> f = (*g)(); if (co_await f.has_value()) { obs(*f); *out = 1; } else *out = 0; }
+}
+// one step in any of the five styles.  1: a value was observed, 0: end of sequence, -1: an exception reached the consumer (recorded)
+static int xstep(generator<int> &g, int style) {
+    int r = -1;
+    if (style < 3) guarded([&] { r = step(g, style); });
+    else { g_frame_kind = FK_COSTEP; g_co_frames++; co_step(&g, style, &r); }
+    return r; }
+extern "C" {
+// W1: body throws after pos values; one style (0..4); the consumer reads up to the exception, samples done() / operator bool, asks twice more
+int drive_after_exception(int pos, int a, int b, int c, int e, int style) {
+    g_fin_done = g_fin_bool = -1;
+    g_frame_kind = FK_THROW; auto g = gen_throw(pos, a, b, c, e);
+    int r = 1;
+    for (int n = 0; n < 5 && r == 1; n++) r = xstep(g, style);          // the values, then the exception (r == -1)
+    if (r == 0) g_end++;                                                  // (a regular end instead of the exception)
+    g_fin_done = g.done() ? 1 : 0; g_fin_bool = g ? 1 : 0;
+    for (int i = 0; i < 2; i++) { r = xstep(g, style); if (r == 1) g_after_val++; else if (r == 0) g_after_end++; }
+    return 1; }
+// W2: every sequence of 4 steps over all FIVE styles, regular body
+int drive_mixed5(int k, int a, int b, int c, int s0, int s1, int s2, int s3) {
+    g_frame_kind = FK_VALS; auto g = gen_vals(k, a, b, c);
+    int r = xstep(g, s0); if (r == 1) r = xstep(g, s1); if (r == 1) r = xstep(g, s2); if (r == 1) r = xstep(g, s3);
+    if (r == 0) g_end++; else g_end += 100;
+    return 1; }
+// W2: throwing body, every step in a style of its own (five styles): values, then the exception exactly at its position
+int drive_throw_mixed(int pos, int a, int b, int c, int e, int s0, int s1, int s2, int s3) {
+    g_frame_kind = FK_THROW; auto g = gen_throw(pos, a, b, c, e);
+    int r = xstep(g, s0); if (r == 1) r = xstep(g, s1); if (r == 1) r = xstep(g, s2); if (r == 1) r = xstep(g, s3);
+    if (r == 0) g_end++; else if (r == 1) g_end += 100;
+    g_fin_done = g.done() ? 1 : 0; g_fin_bool = g ? 1 : 0;
+    return 1; }
+}
